@@ -207,3 +207,72 @@ func checkRecursive(shape string, depth int) (msg, src string) {
 	}
 	return "", src
 }
+
+// checkLoad: a module loaded by a load statement is executed on the SAME
+// thread and fails; the error that the loader sees lists the importing
+// module's frame, suspended at its load statement, below the frames of the
+// loaded module.
+func checkLoad(variant string) (msg, src string) {
+	variants := map[string]struct {
+		main     string
+		loadLine int
+	}{
+		"load-first":        {"load(\"mod\", \"f\")\nx = 1\n", 1},
+		"after-a-call":      {"x = len(\"ab\")\nload(\"mod\", \"f\")\n", 2},
+		"after-operators":   {"x = 1 + 2\ny = [x, x][0] * 3\nz = (x or y) and -x\nload(\"mod\", \"f\")\n", 4},
+		"after-a-good-load": {"load(\"ok\", \"v\")\nw = v + 1\nload(\"mod\", \"f\")\n", 3},
+		"after-blank-lines": {"x = str(1)\n\n\n\n\n\n\n\n\n\n\n\n\n\n\n\n\n\n\n\nload(\"mod\", \"f\")\n", 21},
+	}
+	v, ok := variants[variant]
+	if !ok {
+		return "harness: unknown load variant " + variant, ""
+	}
+	const mod = "def g(v):\n    return v.nope\nr = g(1)\n"
+	src = v.main + "# mod.star:\n" + mod
+	var inner error
+	th := &starlark.Thread{Name: "c16"}
+	th.Load = func(th *starlark.Thread, module string) (starlark.StringDict, error) {
+		if module == "ok" {
+			return starlark.StringDict{"v": starlark.MakeInt(1)}, nil
+		}
+		g, err := starlark.ExecFileOptions(fileOpts, th, "mod.star", mod, nil)
+		inner = err
+		return g, err
+	}
+	_, err := starlark.ExecFileOptions(fileOpts, th, "main.star", v.main, nil)
+	var ee *starlark.EvalError
+	if err == nil || inner == nil || !errors.As(inner, &ee) {
+		return fmt.Sprintf("harness: load did not fail as planned: %v / %v", err, inner), src
+	}
+	type fr struct {
+		name, file string
+		line, col  int32
+	}
+	want := []fr{{"<toplevel>", "main.star", int32(v.loadLine), 1}, {"<toplevel>", "mod.star", 3, 6}, {"g", "mod.star", 2, 13}}
+	var got []string
+	bad := len(ee.CallStack) != len(want)
+	for i, f := range ee.CallStack {
+		got = append(got, fmt.Sprintf("%s@%s:%d:%d", f.Name, f.Pos.Filename(), f.Pos.Line, f.Pos.Col))
+		if i < len(want) && (f.Name != want[i].name || f.Pos.Filename() != want[i].file || f.Pos.Line != want[i].line || f.Pos.Col != want[i].col) {
+			bad = true
+		}
+	}
+	if bad {
+		var w []string
+		for _, f := range want {
+			w = append(w, fmt.Sprintf("%s@%s:%d:%d", f.name, f.file, f.line, f.col))
+		}
+		return fmt.Sprintf("failure inside a module loaded on the same thread: reported [%s], true [%s] (%s)", strings.Join(got, " "), strings.Join(w, " "), ee.Msg), src
+	}
+	// the importer's own error must name its load statement too
+	var outer *starlark.EvalError
+	if errors.As(err, &outer) && len(outer.CallStack) > 0 {
+		f := outer.CallStack[0]
+		if f.Pos.Line != int32(v.loadLine) || f.Pos.Col != 1 {
+			return fmt.Sprintf("the importing module's error is reported at %d:%d, its load statement is at %d:1", f.Pos.Line, f.Pos.Col, v.loadLine), src
+		}
+	}
+	return "", src
+}
+
+var loadVariants = []string{"load-first", "after-a-call", "after-operators", "after-a-good-load", "after-blank-lines"}
